@@ -147,7 +147,9 @@ def post_identity(env, cell, res, st):
 
 
 def obs_identity(cell, r):
-    return [code_of(r["res"])] + enc_creds(r["creds"])
+    if r["res"] != "ok":
+        return [code_of(r["res"])]       # the process dies with the exception: only its class is compared
+    return [0] + enc_creds(r["creds"])
 
 
 def model_identity(env, cell):
@@ -264,7 +266,8 @@ def obs_worker(cell, r):
             out += [3] + enc_creds(e[1])
         else:
             out += list(e)
-    return out + enc_creds(r["creds"])
+    dead = any(e[0] == 2 or e == [4, 0] for e in r["events"])
+    return out + ([] if dead else enc_creds(r["creds"]))
 
 
 def model_worker(env, cell):
@@ -445,6 +448,7 @@ def run_server(env, scen, log=None):
     fileconf = dict(scen["conf"])      # what the configuration file says now
     mconf = {}                         # live master pid -> configuration in force
     wconf = {}                         # worker pid -> configuration it was spawned under
+    state = {"ok": True}
 
     def want_counts():
         return [mconf[m]["workers"] for m in srv.masters if srv.alive(m) and m in mconf]
@@ -463,8 +467,12 @@ def run_server(env, scen, log=None):
         steps.append((list(mevents), obs, desc))
         # ---- the property on this snapshot ----
         if not ok:
-            fails.append(("after %s: the server does not reach %r live workers per master (have %r); log: %s"
-                          % (desc, want_counts(), [len(ws) for _, _, ws in snap], " | ".join(srv.log_tail(6))), None))
+            state["ok"] = False
+            if not snap:
+                fails.append(("after %s: no master is running any more; log: %s" % (desc, " | ".join(srv.log_tail(8))), None))
+            else:
+                fails.append(("after %s: the server does not reach %r live workers per master (have %r); log: %s"
+                              % (desc, want_counts(), [len(ws) for _, _, ws in snap], " | ".join(srv.log_tail(8))), None))
         for m, mc, ws in snap:
             if mc["uids"] != m0["uids"] or mc["gids"] != m0["gids"] or mc["groups"] != m0["groups"]:
                 fails.append(("after %s: master %d changed identity: %r" % (desc, m, mc), None))
@@ -487,6 +495,8 @@ def run_server(env, scen, log=None):
         elif exp is not None and (sock_stat[0] != exp[0] or sock_stat[1] != exp[1]):
             fails.append(("unix socket owned by %d:%d, configured %d:%d" % (sock_stat[0], sock_stat[1], exp[0], exp[1]), None))
         for ev in scen["events"]:
+            if not state["ok"]:
+                break                   # the server is already broken: one concrete failure is enough
             snap = srv.snapshot()
             live_masters = [m for m, _, _ in snap]
             live_workers = [p for _, _, ws in snap for p, _, _ in ws]
@@ -551,7 +561,7 @@ def run_server(env, scen, log=None):
                     raise ValueError(kind)
             observe(desc)
         # ---- what the worker needs after the drop ----
-        snap = srv.snapshot()
+        snap = srv.snapshot() if state["ok"] else []
         if snap:
             before = sorted(p for _, _, ws in snap for p, _, _ in ws)
             docs = srv.request(10)
